@@ -13,6 +13,7 @@ import (
 	"os"
 	"os/exec"
 	"path/filepath"
+	"sort"
 	"strings"
 	"testing"
 
@@ -164,6 +165,60 @@ func TestVerifC13CLI(t *testing.T) {
 			r.Violate("exit/"+c.name+"/verdict", fmt.Sprintf("exit 0 with reported verdict %q", out.Output.Verdict), rp)
 		}
 		r.Sample(map[string]interface{}{"provider_class": c.name, "exit": exit, "reported_verdict": out.Output.Verdict})
+	}
+	// commits the diff engine cannot analyse (the new version does not type-check; the new version is
+	// larger than the source-size limit): `sfw diff` itself fails on them, so there is no finding of
+	// "no high-risk change" and the audit must not pass — even with a provider that answers MATCH
+	if sh, _ := vh.Shard(); sh == 0 {
+		bad := map[string]string{
+			"untypable":  "package main\n\nfunc handler(a int) int {\n\treturn undefinedHelper(a) + 1\n}\n\nfunc main() { _ = handler(1) }\n",
+			"oversized":  "package main\n\nfunc handler(a int) int {\n\treturn a + 2\n}\n\nfunc main() { _ = handler(1) }\n/*\n" + strings.Repeat(strings.Repeat("x", 99)+"\n", 110000) + "*/\n",
+			"not-go":     "this is not Go source\n",
+		}
+		var names []string
+		for n := range bad {
+			names = append(names, n)
+		}
+		sort.Strings(names)
+		for _, n := range names {
+			d := filepath.Join(scratch, "bad-"+n)
+			os.MkdirAll(d, 0o755)
+			bp := filepath.Join(d, "m.go")
+			os.WriteFile(bp, []byte(bad[n]), 0o644)
+			dcmd := exec.Command(sfw, "diff", "--no-sandbox", op, bp)
+			var dout strings.Builder
+			dcmd.Stdout = &dout
+			derr := dcmd.Run()
+			var dj map[string]interface{}
+			json.Unmarshal([]byte(dout.String()), &dj)
+			inBand, _ := dj["error"].(string)
+			if derr == nil && inBand == "" && n == "untypable" {
+				// (the other two cannot be analysed by construction: not Go at all, beyond the size limit)
+				r.Note("`sfw diff` analyses the %s file on this tree: shape not exercised", n)
+				continue
+			}
+			srv := httptest.NewServer(http.HandlerFunc(func(w http.ResponseWriter, req *http.Request) {
+				body, _ := io.ReadAll(req.Body)
+				_, txt := verdict("MATCH", "accurate")()
+				if strings.Contains(string(body), "Security Sentinel") {
+					_, txt = safe()
+				}
+				w.Header().Set("Content-Type", "application/json")
+				io.WriteString(w, txt)
+			}))
+			cmd := exec.Command(sfw, "audit", "--api-key", "k", "--model", "gpt-4o", "--api-base", srv.URL+"/v1", op, bp, "fix typo")
+			var stdout, stderr strings.Builder
+			cmd.Stdout, cmd.Stderr = &stdout, &stderr
+			err := cmd.Run()
+			srv.Close()
+			r.Eval()
+			r.Nontrivial("unanalysable/" + n)
+			var out models.AuditOutput
+			json.Unmarshal([]byte(stdout.String()), &out)
+			if err == nil {
+				r.Violate("exit/unanalysable-"+n, fmt.Sprintf("the new version of the file is %s (`sfw diff` fails on the pair), yet `sfw audit` exited 0 with verdict %q", n, out.Output.Verdict), map[string]interface{}{"class": n})
+			}
+		}
 	}
 	// no high-risk change: automatic pass without consulting the provider
 	if sh, _ := vh.Shard(); sh == 0 {
